@@ -163,6 +163,14 @@ def run(prog, rep, tier):
     rep.check("CONTRACT.delegated-sample", bool(sup) and sup[0].args[:1] == [N] and not sup[0].path and sup[0].order < first, fwhere(f4),
               "super().sample(n) validates n before anything else", "n is not validated first")
     loops = sorted([(k, v) for k, v in S4.loopinfo.items() if v["func"] == f4.qname], key=lambda kv: kv[0][1])
+    if len(loops) == 2 and loops[0][1]["iter"][0] == "ext" and loops[0][1]["iter"][1] == "zip":
+        # for size, original, forests in zip(n, self._data, self._random_forests.T): the per-environment pieces walked in step; read as X[k] with k the
+        # position in the zip (every zipped sequence has one entry per environment: n is validated, _data and the forest table are built that way)
+        S4z = Sym(prog)
+        S4z.zip_index = True
+        s4z, _ = run_function(S4z, f4)
+        S4, s4 = S4z, s4z
+        loops = sorted([(k, v) for k, v in S4.loopinfo.items() if v["func"] == f4.qname], key=lambda kv: kv[0][1])
     if len(loops) != 2:
         # the environment loop written as a comprehension (around an extracted per-environment helper): read it as the loop it is
         S4b = Sym(prog)
@@ -195,7 +203,10 @@ def run(prog, rep, tier):
     k4 = ("elem", outer["iter"])
     i4 = ("elem", inner["iter"])
     rep.check("ORDER.nodes", inner["iter"] == ("self", "_ordering"), fwhere(f4, inner["node"]), "nodes are generated along self._ordering", "node loop runs over %s" % fmt(inner["iter"]))
-    rep.check("SHAPE.envs", outer["iter"] == ext("range", ("self", "e")), fwhere(f4, outer["node"]), "one sample per environment", "environment loop runs over %s" % fmt(outer["iter"]))
+    per_env = (("self", "_data"), ("attr", ("self", "_random_forests"), "T"))
+    oit = outer["iter"]
+    zip_ok = oit[0] == "ext" and oit[1] == "zip" and not oit[3] and bool(oit[2]) and all(x_ in per_env or (x_[0] == "phi" and x_[2] == ("self", "Ns")) for x_ in oit[2])
+    rep.check("SHAPE.envs", oit == ext("range", ("self", "e")) or zip_ok, fwhere(f4, outer["node"]), "one sample per environment", "environment loop runs over %s" % fmt(outer["iter"]))
     nm = inner["changed"][0] if len(inner["changed"]) == 1 else None
     if nm is None:
         raise Inconclusive("DRFNet.sample: node loop carries %s" % inner["changed"], inner["node"])
